@@ -806,7 +806,7 @@ def gen(ctx):
                        'puts': [[0.25, work, False]], 'stop': 0.5, 'stop_timeout': tmo,
                        'neighbours': [[0.5 * work, 10.0], [0.6 * work, 5.0]]}, True
     rng = ctx.rng('random')
-    nrand = 300 if quick else 60000
+    nrand = 800 if quick else 60000
     for i in range(nrand):
         n = rng.randint(2, 4)
         times = sorted(rng.choice(GRID6 + [0.25, 1.0, 3.0]) for _ in range(n))
